@@ -8,6 +8,7 @@ pub mod gen;
 pub mod logint;
 pub mod model;
 pub mod num;
+pub mod oracle_cli;
 pub mod props;
 pub mod runner;
 
